@@ -240,9 +240,12 @@ CLAIMED = {
               "queue are - without repetition - exactly the non-daemon members in the order in which they finished (exactly once, "
               "completion order); completed is the first consumed member that counts (object policy: that did not return None); "
               "a finished member's outcome is never rewritten, the policy is fixed, and only the joining task consumes or sets "
-              "completed. NOT proved, decided by the correspondence and the oracle on real runs only: that the loop leaves "
-              "exactly when the policy says (all / first / first non-None / none, early stop on failure), that the members "
-              "still running are then cancelled, that join raises no member exception, and the result/exception properties. "
+              "completed; the semaphore of next_done counts the queue of finished members; join leaves its loop - other than by "
+              "a cancellation - only under the none policy, after a member that stops it (failed / cancelled; any; object and a "
+              "member counts) or when nothing is pending and nothing is queued, and it never goes on consuming after a member "
+              "that stops it. NOT proved, decided by the correspondence and the oracle on real runs only: that the members "
+              "still running are then cancelled (follows for the end state from C09), that join raises no member exception, "
+              "and the result/exception properties. "
               "Correspondence: as C09 plus the cancellation requests after every handle; oracle computed from the real run alone."),
         note=TB + "Partial: next_done called by the application between join's iterations, add_task of an already finished task and the retain option are not in the model.",
         technique="Coq proof (order / exactly-once / first-finisher invariants by induction over label lists, generic preservation lemma for the joining coroutine) + per-handle vm_compute trace correspondence + policy oracle on the real runs",
